@@ -47,8 +47,8 @@ func perftViaCommand(fen, cmd string, depth int, pre ...string) string {
 				}
 			}()
 			engine.VerifResetSession()
-			if fen == "startpos" {
-				engine.ParseInputLine("position startpos")
+			if strings.HasPrefix(fen, "startpos") {
+				engine.ParseInputLine("position " + fen)
 			} else {
 				engine.ParseInputLine("position fen " + fen)
 			}
@@ -134,6 +134,44 @@ func init() {
 				so.emit(fmt.Sprintf("PERFT\t%s\t%d", fen, d), perftViaCommand(fen, "perft", d, "eval", "isready"))
 				so.emit(fmt.Sprintf("TPERFT\t%s\t%d", fen, d), perftViaCommand(fen, "tperft", d, "eval", "tperft 1"))
 			}
+		}
+		// positions given as move lists (the en-passant square then comes from ApplyUciMove, not from a FEN field): game prefixes
+		// that end with a double pawn push landing beside an enemy pawn, for both colours
+		emitted := 0
+		for g := 0; g < 60 && emitted < 12; g++ {
+			gm := playout(r, "startpos", 30+r.intn(60))
+			for i, m := range gm.moves {
+				if len(m) != 4 || (m[1] != '2' || m[3] != '4') && (m[1] != '7' || m[3] != '5') || m[0] != m[2] {
+					continue
+				}
+				before := parseSnap(engineSnapOfFen(gm.fens[i]))
+				from := int(m[1]-'1')<<4 | int(m[0]-'a')
+				to := int(m[3]-'1')<<4 | int(m[2]-'a')
+				if before.board[from]&0x3f != 1 {
+					continue
+				}
+				enemyPawn := byte(0x41) // black pawn beside a white push
+				if m[1] == '7' {
+					enemyPawn = 0x81
+				}
+				beside := (to&15 > 0 && before.board[to-1] == enemyPawn) || (to&15 < 7 && before.board[to+1] == enemyPawn)
+				if !beside {
+					continue
+				}
+				start := "startpos moves " + strings.Join(gm.moves[:i+1], " ")
+				so.emit(fmt.Sprintf("PERFT\t%s\t%d", start, 2), perftViaCommand(start, "perft", 2))
+				so.emit(fmt.Sprintf("TPERFT\t%s\t%d", start, 1), perftViaCommand(start, "tperft", 1))
+				emitted++
+				break
+			}
+		}
+		// the same situation from fixed FENs plus one move, on the edge files too
+		for _, c := range []string{
+			"4k3/3p4/8/4P3/8/8/8/4K3 b - - 0 1 moves d7d5", "4k3/p7/8/1P6/8/8/8/4K3 b - - 0 1 moves a7a5", "4k3/7p/8/6P1/8/8/8/4K3 b - - 0 1 moves h7h5",
+			"4k3/8/8/8/4p3/8/3P4/4K3 w - - 0 1 moves d2d4", "4k3/8/8/8/1p6/8/P7/4K3 w - - 0 1 moves a2a4", "4k3/8/8/8/6p1/8/7P/4K3 w - - 0 1 moves h2h4",
+		} {
+			so.emit(fmt.Sprintf("PERFT\t%s\t%d", c, 2), perftViaCommand(c, "perft", 2))
+			so.emit(fmt.Sprintf("TPERFT\t%s\t%d", c, 2), perftViaCommand(c, "tperft", 2))
 		}
 		// castling rights around captures on the rook corners (both sides hold all rights, files a and h open): three plies reach
 		// "capture on the corner, then the castling that must be gone"
